@@ -13,7 +13,9 @@ import (
 	"sync"
 
 	"storj.io/drpc"
+	"github.com/zeebo/errs"
 	"storj.io/drpc/drpcconn"
+	"storj.io/drpc/drpcerr"
 	"storj.io/drpc/drpcmanager"
 	"storj.io/drpc/drpcmetadata"
 	"storj.io/drpc/drpcserver"
@@ -91,6 +93,7 @@ type World struct {
 	Direct []string // direct monitor failures
 	mu     sync.Mutex
 
+	Codes      map[string]uint64 // thread -> drpcerr.Code of the last error a call returned
 	svGoidSeen int64
 	LastWhere  map[string]string
 	Lines      []Line
@@ -198,7 +201,7 @@ func (h *Handler) HandleRPC(stream drpc.Stream, rpc string) error {
 	if md, ok := drpcmetadata.Get(stream.Context()); ok {
 		h.meta[sid] = md["k"]
 	} else {
-		h.meta[sid] = "none"
+		h.meta[sid] = "nometa"
 	}
 	h.mu.Unlock()
 	set := func(r string) { h.mu.Lock(); h.last = r; h.mu.Unlock() }
@@ -221,7 +224,8 @@ func (h *Handler) HandleRPC(stream drpc.Stream, rpc string) error {
 		case a == "retnil":
 			return nil
 		case a == "reterr":
-			return errors.New("e" + strconv.FormatUint(sid, 10))
+			// code attached under two layers of wrapping
+			return fmt.Errorf("%w", errs.Wrap(drpcerr.WithCode(errors.New("e"+strconv.FormatUint(sid, 10)), 4000+sid)))
 		case a == "quit":
 			return errors.New("quit")
 		}
@@ -234,7 +238,7 @@ func init() {
 
 // New builds the world and lets it settle.
 func New(cfg Config) *World {
-	w := &World{Cfg: cfg, D: dir.NewDirector(), Enc: &dir.GateEnc{}, wseen: map[string]int{}, units: map[string][]int{}, eofQ: map[string]bool{}}
+	w := &World{Cfg: cfg, D: dir.NewDirector(), Enc: &dir.GateEnc{}, wseen: map[string]int{}, units: map[string][]int{}, eofQ: map[string]bool{}, Codes: map[string]uint64{}}
 	w.Enc.ArmU.Store(cfg.GateU)
 	w.CP, w.SP = dir.NewGatedPair("cli", "srv")
 	size := 4096
@@ -263,6 +267,15 @@ func New(cfg Config) *World {
 	w.Conn = drpcconn.NewWithOptions(w.CP, drpcconn.Options{Manager: mopts})
 	return w
 }
+
+func (w *World) setCode(t string, err error) {
+	w.mu.Lock()
+	w.Codes[t] = drpcerr.Code(err)
+	w.mu.Unlock()
+}
+
+// Code returns the drpcerr code of the last error thread t's call returned.
+func (w *World) Code(t string) uint64 { w.mu.Lock(); defer w.mu.Unlock(); return w.Codes[t] }
 
 func (w *World) pipe(e string) *dir.GatedPipe {
 	if e == "cli" {
@@ -305,6 +318,7 @@ func (w *World) Apply(st Stim) bool {
 				var out dir.Msg
 				err := w.Conn.Invoke(ctx, name, w.Enc, &dir.Msg{Data: Pad(fmt.Sprintf("%d.1", r), 1)}, &out)
 				if err != nil {
+					w.setCode(st.T, err)
 					return ErrClass(err)
 				}
 				return "msg:" + TagOf(out.Data)
@@ -347,6 +361,7 @@ func (w *World) Apply(st Stim) bool {
 			w.D.Go(st.T, func() string {
 				var m dir.Msg
 				if err := s.MsgRecv(&m, w.Enc); err != nil {
+					w.setCode(st.T, err)
 					return ErrClass(err)
 				}
 				return "msg:" + TagOf(m.Data)
